@@ -5,8 +5,10 @@ patch="$1"; shift
 cd /repo || exit 2
 if [ -n "$(git status --porcelain -- src)" ]; then echo "repo not clean"; exit 2; fi
 git apply "$patch" || { echo "patch does not apply"; exit 2; }
+ev=$(mktemp -d); cp -a /verif/evidence/. "$ev"/   # evidence written while a seeded change is applied must not survive
 for p in "$@"; do
   (cd /verif && timeout 1500 ./check "$p" --tier "${TIER:-quick}" 2>&1 | tail -${TAIL:-6}; echo "exit=${PIPESTATUS[0]}")
 done
 git -C /repo checkout -- . 
+cp -a "$ev"/. /verif/evidence/; rm -rf "$ev"
 git -C /repo status --porcelain -- src | head -3
